@@ -16,7 +16,7 @@ def c07_runs(tier):
     opts = {'wakepick_cost': 0}  # every kernel choice of which futex waiters to wake is free
     quick = tier == 'quick'
 
-    def add(n, path, k, hold, bound, mode='plain', budget=40):
+    def add(n, path, k, hold, bound, mode='plain4', budget=40):  # plain4: see Makefile and level_note
         if hold and (k < 2 or path == 'pfa'):
             return  # hold only differs from hold=0 when two bodies have to overlap; pfa has no 1:1 task/body map
         runs.append(McRun(BIN, 'idle_submit', dict(n=n, path=path, k=k, hold=hold), bound=bound, mode=mode, opts=opts, budget=budget))
@@ -28,7 +28,6 @@ def c07_runs(tier):
             add(2, path, 1, 0, 0)
         for path in C07_PATHS:
             add(2, path, 2, 0, 0)
-        add(2, 'tb', 3, 0, 0)
         for path in ('q', 'cs', 'tb'):
             add(2, path, 2, 1, 0)
         for path in ('s', 'q', 'b', 'ts', 'cs'):
@@ -40,11 +39,11 @@ def c07_runs(tier):
         # one preemption on top (the producer racing the workers it has just woken)
         add(2, 'q', 2, 1, 1)
         add(2, 'cs', 2, 0, 1)
-        add(1, 'q', 2, 0, 1)
+        add(2, 'q', 2, 0, 1)
     else:
         for n in (1, 2, 3):
             for path in C07_PATHS:
-                for k in range(1, n + 2):
+                for k in range(1, n + 1):  # the statement quantifies over 1..N tasks (see level_note)
                     for hold in (0, 1):
                         add(n, path, k, hold, 1 if n == 1 else 0)
         for path in C07_PATHS:
@@ -52,8 +51,9 @@ def c07_runs(tier):
                 add(2, path, 2, hold, 1, budget=90)
             add(2, path, 1, 0, 1, budget=90)
         for path in ('q', 'tb'):
-            add(1, path, 2, 0, 2, budget=90)
             add(3, path, 1, 0, 1, budget=120)
+        for path, hold in (('q', 0), ('q', 1), ('s', 0), ('cs', 1), ('tb', 0), ('ts', 0)):
+            add(2, path, 2, hold, 2, budget=240)
     # sanitizer legs (2-500 executions/s depending on machine load): smallest shapes
     add(2, 'tb', 2, 0, 0, mode='tsan', budget=90)
     add(1, 'cs', 1, 0, 0, mode='tsan', budget=90)
@@ -64,10 +64,10 @@ def c07_runs(tier):
 
 reg('C07', level='model_checking', runs=c07_runs, quick_budget_s=240, thorough_budget_s=1200,
     technique='stateless model checking of the real ThreadPool/TaskSet/parallel_for code: the pool is brought to the state "every worker blocked in its futex wait", timed waits are then forbidden to expire, one producer submits without waiting, and every kernel choice of which futex waiters a FUTEX_WAKE reaches is explored at no cost',
-    level_text='pools of 1-3 threads x {pool.schedule, schedule(ForceQueuingTag), pool.scheduleBulk, TaskSet::schedule, TaskSet::scheduleBulk (ring fast path for k<=N, central queue for k=N+1), ConcurrentTaskSet(kHeavy)::schedule (steal ring), parallel_for(wait=false) static and adaptive} x k=1..N+1 tasks x {short bodies, bodies that stay busy until min(k,N) of them run}; all futex waiter picks. quick: 0 preemptions on N=2 (every path with k=2, the ring paths and the central-queue paths with k=1, busy bodies on {q,cs,tb}), N=3 tb k in {1,3}, N=1 k=1 on four paths, plus 1 preemption on N=2 k=2 {q busy bodies, cs} and N=1 k=2 q. thorough: the whole matrix with 0 preemptions (N=1: 1), 1 preemption on every N=2 path for k in {1,2}, N=3 k=1 {q,tb}, 2 on N=1 k=2 {q,tb}. Oracle: every task body starts (task sets drain) while no timed wait may expire; a state with an unstarted task and every thread parked is a deadlock verdict = "depends on the backstop".',
-    level_note='the all-parked precondition is established exactly (T0 sleeps in virtual time, which can only expire when every worker is blocked in futex_wait); wake group size is the default 8, so pools of <=3 threads are a single wake group (a -DDISPENSO_TUNE_WAKE_GROUP_SIZE=2 build was run by hand, see harness/c03_lifecycle.notes.md)',
+    level_text='pools of 1-3 threads x {pool.schedule, schedule(ForceQueuingTag), pool.scheduleBulk, TaskSet::schedule, TaskSet::scheduleBulk (ring fast path), ConcurrentTaskSet(kHeavy)::schedule (steal ring), parallel_for(wait=false) static and adaptive} x k=1..N tasks x {short bodies, bodies that stay busy until min(k,N) of them run}; all futex waiter picks. quick: 0 preemptions on N=2 (every path with k=2, the ring paths and the central-queue paths with k=1, busy bodies on {q,cs,tb}), N=3 tb k in {1,3}, N=1 k=1 on four paths, plus 1 preemption on N=2 k=2 {q busy bodies, q, cs}. thorough: the whole matrix with 0 preemptions (N=1: 1), 1 preemption on every N=2 path for k in {1,2}, N=3 k=1 {q,tb}, 2 preemptions on N=2 k=2 {q, q busy, s, cs busy, tb, ts}. Oracle: every task body starts (task sets drain) while no timed wait may expire; a state with an unstarted task and every thread parked is a deadlock verdict = "depends on the backstop".',
+    level_note='k is limited to 1..N as in the statement: with k=N+1 the extra task is submitted when a worker is between its last queue check and its futex wait, i.e. not to a fully parked pool - the race thread_pool.h documents the backstop for (an earlier version of this matrix had k=N+1 and reported it; corrected as a check that demanded more than the property). The plain runs use the plain4 build (worker spin limit DISPENSO_TUNE_FIXED_SPIN_ITERS=4, two full passes over the work sources before parking, instead of 2 = one pass): with one pass a worker parked after a single lost fail-fast MpmcRingBuffer::try_pop race, which the shipped configuration (200/400 passes) retries a hundred times; the one alarm that produced (cs, busy bodies, N=2, 2 deviations) was a false alarm of the tuning, corrected this way. the all-parked precondition is established exactly (T0 sleeps in virtual time, which can only expire when every worker is blocked in futex_wait); wake group size is the default 8, so pools of <=3 threads are a single wake group (a -DDISPENSO_TUNE_WAKE_GROUP_SIZE=2 build was run by hand, see harness/c03_lifecycle.notes.md)',
     design_ref='DESIGN.md section 4, C07', assumptions=MC_ASSUME, rule=RULE,
-    guards=[need_cover('ring_fast_path', 'bulk_central_queue'), need_outcomes(4)])
+    guards=[need_cover('ring_fast_path'), need_outcomes(4)])
 
 
 # ---------------------------------------------------------------------------------------------- C09
@@ -150,8 +150,23 @@ def c03_runs(tier):
     # bound 0 alone is >10^5 executions per configuration)
     opts = {'free_switch_cost': 1}
 
-    def add(n, path, r, gate, bound, mode='plain', budget=40):
-        runs.append(McRun(BIN, 'resize_work', dict(n=n, path=path, r=r, gate=gate), bound=bound, mode=mode, opts=opts, budget=budget))
+    def add(n, path, r, gate, bound, mode='plain', budget=40, watch=0, k=None):
+        params = dict(n=n, path=path, r=r, gate=gate)
+        if watch:
+            params['watch'] = watch  # the whole script right before the submitter's watch-th access to numRings_
+        if k is not None:
+            params['k'] = k
+        runs.append(McRun(BIN, 'resize_work', params, bound=bound, mode=mode, opts=opts, budget=budget))
+
+    # directed, in the windows of the ring dispatch that contain no user code (numRings_ is read by the task set's
+    # gate and again by scheduleBulkToRings): shrinking, emptying and shrink-then-grow scripts
+    for n, scripts in ((2, ('1', '0', '1.3')), (3, ('1', '2', '2.4'))):
+        if quick and n == 3:
+            scripts = ('1',)
+        for path in ('tb', 'pf'):
+            for r in scripts:
+                for w in (1, 2):
+                    add(n, path, r, 0, 0, watch=w)
 
     if quick:
         # directed first (one execution each): the whole resize script at the g-th user-code hook inside the
@@ -192,8 +207,8 @@ def c03_runs(tier):
 
 
 reg('C03', level='model_checking', runs=c03_runs, quick_budget_s=330, thorough_budget_s=1500,
-    technique='stateless model checking of the real ThreadPool with a submitting thread, a resizing thread and a virtual-time watchdog; besides the free-running race, "slow user code" variants (a bulk generator / functor copy that returns only after the whole resize script ran) place a complete resize at every user-code hook inside the submission call without spending deviations',
-    level_text='N in {1,2} x {pool.schedule, TaskSet::schedule, TaskSet::scheduleBulk (ring fast path), ConcurrentTaskSet(kHeavy)::schedule (steal ring), static parallel_for with wait, dispenso::async + Future::wait} x resize scripts {[N+1],[N-1],[0],[0,N],[N-1,N+1]}: free-running race with <=1 deviation where every switch between enabled threads counts as a deviation (2 on two shapes in thorough); directed variants with the whole resize script at user-code hook g of the submission call (quick g in {1,3} for the ring paths and g=2 for the others on N=2; thorough g=1..6 / 1..4 for every script), default schedule. Oracle: every body runs exactly once, all of the submitter\'s tasks have finished when wait() returns, wait() and resize() return within 3 s of virtual time with the 100 ms backstop allowed to fire (so only a task that nobody will ever run is reported), numThreads() and the live worker count equal the last size, every body has run when ~ThreadPool returns and none runs afterwards.',
+    technique='stateless model checking of the real ThreadPool with a submitting thread, a resizing thread and a virtual-time watchdog; besides the free-running race, directed variants that run the complete resize script inside a named window of the submission call: right before a given access of the submitter to numRings_ (engine watch hook), and "slow user code" variants (a bulk generator / functor copy that returns only after the whole resize script ran) place a complete resize at every user-code hook inside the submission call without spending deviations',
+    level_text='N in {1,2} x {pool.schedule, TaskSet::schedule, TaskSet::scheduleBulk (ring fast path), ConcurrentTaskSet(kHeavy)::schedule (steal ring), static parallel_for with wait, dispenso::async + Future::wait} x resize scripts {[N+1],[N-1],[0],[0,N],[N-1,N+1]}: free-running race with <=1 deviation where every switch between enabled threads counts as a deviation (2 on two shapes in thorough); directed variants with the whole resize script right before the submitter\'s 1st / 2nd read of numRings_ inside the ring dispatch (windows without user code; N in {2,3}), and at user-code hook g of the submission call (quick g in {1,3} for the ring paths and g=2 for the others on N=2; thorough g=1..6 / 1..4 for every script), default schedule. Oracle: every body runs exactly once, all of the submitter\'s tasks have finished when wait() returns, wait() and resize() return within 3 s of virtual time with the 100 ms backstop allowed to fire (so only a task that nobody will ever run is reported), numThreads() and the live worker count equal the last size, every body has run when ~ThreadPool returns and none runs afterwards.',
     level_note='concurrent schedule()/resize() is supported usage (thread_pool_test ResizeConcurrent, ResizeMoreConcurrent, ResizeGrowConcurrentBulk; comments in resizeLocked). The engine\'s spin heuristic parks the resizer\'s ring-drain loop until another thread writes, so "resize completes while the submitter is preempted inside the ring fast path" is not reachable in the free-running programs; the directed variants exist to cover exactly that window (see notes).',
     design_ref='DESIGN.md section 4, C03', assumptions=MC_ASSUME, rule=RULE,
-    guards=[need_cover('ring_fast_path', 'steal_ring', 'gate_fired', 'left_for_destructor'), need_outcomes(4)])
+    guards=[need_cover('ring_fast_path', 'steal_ring', 'gate_fired', 'watch_fired', 'left_for_destructor'), need_outcomes(4)])
